@@ -489,6 +489,15 @@ func (f *Frame) evalCall(x ECall, c *evalCtx) Val {
 			f.fail("unbox: unknown type %s", tn)
 		}
 		return Val{T: u.Unbox(IVal(v.T), u.SortOf(t)), Go: t}
+	case "asptr":
+		// asptr(x, *T): the integer x read as a pointer of the given type (ghost references)
+		v := f.eval(x.Args[0], c)
+		tn := exprTypeName(x.Args[1])
+		t := un.eng.lookupType(tn, f.fn)
+		if t == nil {
+			f.fail("asptr: unknown type %s", tn)
+		}
+		return Val{T: v.T, Go: t}
 	case "string":
 		v := f.eval(x.Args[0], c)
 		if v.T.Sort == SStr {
